@@ -4,6 +4,12 @@ Private methods that are NOT in this list are treated as newly extracted helpers
 import ast, os, sys
 root = sys.argv[1] if len(sys.argv) > 1 else '/repo'
 out = []
+params = []
+
+
+def sig(n):
+    a = n.args
+    return ','.join(x.arg for x in a.posonlyargs + a.args + a.kwonlyargs) + ('' if not a.vararg else ',*' + a.vararg.arg) + ('' if not a.kwarg else ',**' + a.kwarg.arg)
 for dp, dn, fns in os.walk(os.path.join(root, 'sismic')):
     for fn in sorted(fns):
         if not fn.endswith('.py'):
@@ -19,10 +25,15 @@ for dp, dn, fns in os.walk(os.path.join(root, 'sismic')):
                 for m in n.body:
                     if isinstance(m, ast.FunctionDef):
                         out.append('%s:%s.%s' % (mod, n.name, m.name))
+                        params.append('%s:%s.%s(%s)' % (mod, n.name, m.name, sig(m)))
             elif isinstance(n, ast.FunctionDef):
                 out.append('%s:%s' % (mod, n.name))
+                params.append('%s:%s(%s)' % (mod, n.name, sig(n)))
 here = os.path.dirname(os.path.dirname(os.path.abspath(__file__)))
 with open(os.path.join(here, 'sa', 'anchors.txt'), 'w') as f:
     f.write('# functions of the reference tree (AlexandreDecan/sismic at the pinned commit + the fix: commits); see sa/inline.py\n')
     f.write('\n'.join(sorted(set(out))) + '\n')
 print(len(set(out)), 'functions')
+with open(os.path.join(here, 'sa', 'params.txt'), 'w') as f:
+    f.write('# parameters of the functions of the reference tree; a parameter that is not listed here is new (sa/loader.py fold_new_params)\n')
+    f.write('\n'.join(sorted(set(params))) + '\n')
